@@ -559,6 +559,13 @@ func (e *Exec) loopEnv(f *frame, li *loopInfo, st *State) *Env {
 				if v, ok := f.vals[phi]; ok {
 					env.Vars[fmt.Sprintf("rangeindex%d", l.ordinal)] = v
 				}
+				if lv := rangeLenOf(h, phi); lv != nil {
+					if call, ok := lv.(*ssa.Call); ok && len(call.Call.Args) == 1 {
+						if sv, ok := f.vals[call.Call.Args[0]]; ok {
+							env.Vars[fmt.Sprintf("$rangeslice%d", l.ordinal)] = sv
+						}
+					}
+				}
 			}
 		}
 	}
@@ -586,6 +593,12 @@ func (e *Exec) loopEnv(f *frame, li *loopInfo, st *State) *Env {
 					env.Vars["$rangelen"] = v
 				} else if c, ok := lv.(*ssa.Const); ok {
 					env.Vars["$rangelen"] = e.constVal(c)
+				}
+				// the slice being ranged over: the argument of the len() call
+				if call, ok := lv.(*ssa.Call); ok && len(call.Call.Args) == 1 {
+					if sv, ok := f.vals[call.Call.Args[0]]; ok {
+						env.Vars["$rangeslice"] = sv
+					}
 				}
 			}
 		}
